@@ -209,6 +209,12 @@ def pstep (s : PSys) : POp → Option PSys
     some (s.put x ((s.get x).recv.release s.m).1 { (s.get x) with recv := ((s.get x).recv.release s.m).2 })
   | .close x => some (s.put x (closeStream s.m (s.get x)) { inFallback := (s.get x).inFallback })
 
+/-- the bytes a reader operation hands to its caller -/
+def pout (s : PSys) : POp → List Nat
+  | .readBytes x n => match (s.get x).recv.readBytes s.m n with | some (_, _, d) => d | none => []
+  | .peek x n => match (s.get x).recv.peekBytes s.m n with | some (_, d) => d | none => []
+  | _ => []
+
 def prun : PSys → List POp → Option PSys
   | s, [] => some s
   | s, op :: r => match pstep s op with | none => none | some s' => prun s' r
